@@ -28,6 +28,7 @@
 #include "media.h"		// for AbstractImageFile
 #include "storage.h"		// for StorageConfiguration
 #include "track.h"		// for Sector
+#include "verif_hooks.h"	// for BEEBTOOLS_VERIF_TRACE
 
 using Track::Sector;
 using Track::byte;
@@ -283,6 +284,9 @@ private:
 	{
 	  if (sect.address == want)
 	    {
+	      BEEBTOOLS_VERIF_TRACE("X %u %lu %u,%u,%u found\n", side_, lba,
+				    sect.address.cylinder, sect.address.head,
+				    sect.address.record);
 	      DFS::SectorBuffer buf;
 	      std::copy(sect.data.begin(), sect.data.end(), buf.begin());
 	      return buf;
@@ -457,6 +461,15 @@ HxcMfmFile::read_all_sectors(unsigned int side,
 		{
 		  return a.address < b.address;
 		});
+#ifdef BEEBTOOLS_VERIF
+      for (const Sector& s : track_sectors)
+	{
+	  BEEBTOOLS_VERIF_TRACE("Y %u %u %u,%u,%u %u %02x%02x\n",
+				key.track_number, key.side_number,
+				s.address.cylinder, s.address.head, s.address.record,
+				static_cast<unsigned>(s.data.size()), s.crc[0], s.crc[1]);
+	}
+#endif
       std::string error;
       if (!DFS::check_track_is_supported(track_sectors, key.track_number, key.side_number, DFS::SECTOR_BYTES, DFS::verbose, error))
 	{
